@@ -187,6 +187,44 @@ const (
 type vfItem struct {
 	K  int  `json:"k"`
 	On bool `json:"on,omitempty"` // motion wanted: the programmed pixel toggles
+	// P (valid frames of a Boson with edge-pixels 1 only; the first three pixels are border pixels there): the
+	// frame's first bytes resemble the marker. 1: "clear"; 2: "cleaR"; 3: "clear" from the second byte; 4: "CLEAR"
+	P int `json:"p,omitempty"`
+}
+
+const vfKnownMarkerFrame = "D19-frame-beginning-with-marker-bytes"
+
+func vfKnownEnabled(key string) bool {
+	for _, k := range strings.Split(os.Getenv("VERIF_KNOWN"), ",") {
+		if k == key {
+			return true
+		}
+	}
+	return false
+}
+
+func (c vfSockCase) prefixable() bool { return c.Cam.Model == "boson" && c.Edge == 1 }
+
+// vfApplyPrefix overwrites the first bytes of a raw Boson frame (little-endian pixels) and keeps pix in step.
+func vfApplyPrefix(raw []byte, pix []uint16, p int) {
+	var b []byte
+	off := 0
+	switch p {
+	case 1:
+		b = []byte("clear")
+	case 2:
+		b = []byte("cleaR")
+	case 3:
+		b, off = []byte("clear"), 1
+	case 4:
+		b = []byte("CLEAR")
+	default:
+		return
+	}
+	copy(raw[off:], b)
+	for i := 0; i < 3; i++ {
+		pix[i] = binary.LittleEndian.Uint16(raw[2*i:])
+	}
 }
 
 type vfSockCase struct {
@@ -293,6 +331,11 @@ func vfSockValid(c vfSockCase) string {
 	if c.Min < 0 || c.Max < c.Min || c.Prev < 0 || c.Trigger < 0 || c.Prev*cam.FPS+c.Trigger < 1 || len(c.Items) > 1500 {
 		return "configuration outside the domain"
 	}
+	for _, it := range c.Items {
+		if it.P < 0 || it.P > 4 {
+			return "bad prefix kind"
+		}
+	}
 	okName := false
 	for _, n := range vfOutNames {
 		okName = okName || n == c.OutName
@@ -352,6 +395,9 @@ func vfRunSock(c vfSockCase) *vfSockOut {
 				level = !level
 			}
 			raw, pix := vfSockFrame(c, id, level, false)
+			if it.P > 0 && c.prefixable() {
+				vfApplyPrefix(raw, pix, it.P)
+			}
 			o.sentPix[id] = pix
 			id++
 			segs = append(segs, seg{raw, true})
@@ -664,6 +710,18 @@ func vfGenC14Sock(t *rapid.T) vfSockCase {
 	if rapid.Bool().Draw(t, "clearlast") {
 		c.Items = append(c.Items, vfItem{K: vfItClear})
 	}
+	if c.prefixable() && rapid.Bool().Draw(t, "prefixed") {
+		// frames whose first bytes resemble the marker; rarely the marker's five bytes themselves
+		kinds := []int{2, 3, 4}
+		if rapid.IntRange(0, 3).Draw(t, "fullmarker") == 0 {
+			kinds = []int{1, 1, 2, 3, 4}
+		}
+		for i := range c.Items {
+			if c.Items[i].K == vfItFrame && rapid.IntRange(0, 3).Draw(t, "pf") == 0 {
+				c.Items[i].P = rapid.SampledFrom(kinds).Draw(t, "pkind")
+			}
+		}
+	}
 	// pad so that every frame of interest sits in a finished continuous file
 	size := c.Max*c.Cam.FPS + 1
 	n := 0
@@ -679,7 +737,41 @@ func vfGenC14Sock(t *rapid.T) vfSockCase {
 	return c
 }
 
+// vfRunC14Sock: a case containing a frame that begins with the marker's five bytes fails on the code as it
+// is (known finding D19). Such a failure is exempted only if the finding is listed as known and the very same
+// case passes once those frames begin with "cleaR" instead - any other violation is still reported.
 func vfRunC14Sock(c vfSockCase) *kit.Result {
+	r := vfRunC14SockInner(c)
+	hit := false
+	for _, it := range c.Items {
+		hit = hit || (it.K == vfItFrame && it.P == 1 && c.prefixable())
+	}
+	if !hit {
+		return r
+	}
+	if r.Err == "" {
+		r.Class("marker_prefixed_frame_delivered")
+		return r
+	}
+	if !vfKnownEnabled(vfKnownMarkerFrame) {
+		r.Err = "a frame whose first five bytes are \"clear\" was not delivered as a frame: " + r.Err
+		return r
+	}
+	c2 := c
+	c2.Items = append([]vfItem{}, c.Items...)
+	for i := range c2.Items {
+		if c2.Items[i].P == 1 {
+			c2.Items[i].P = 2
+		}
+	}
+	r2 := vfRunC14SockInner(c2)
+	if r2.Err != "" {
+		return r2
+	}
+	return &kit.Result{Known: []string{vfKnownMarkerFrame}, Classes: []string{"known_finding_marker_prefixed_frame"}}
+}
+
+func vfRunC14SockInner(c vfSockCase) *kit.Result {
 	r := &kit.Result{}
 	if msg := vfSockValid(c); msg != "" {
 		r.Failf("malformed case: %s", msg)
@@ -762,7 +854,7 @@ func vfRunC14Sock(c vfSockCase) *kit.Result {
 
 func TestVF_C14_Socket(t *testing.T) {
 	kit.Drive(t, "C14", "TestVF_C14_Socket",
-		"generated: a camera header followed by frames and 5-byte 'clear' markers (at the start, at the end, repeated back to back, between frames), cut into segments of generated sizes (1 byte .. larger than a frame, cuts inside the marker, inside the first 5 bytes of a frame and inside header lines) and written to the real handleConn over a pipe; continuous recorder on, padded so that every frame sits in a finished file. Oracle: handleConn ends with a clean EOF at a frame boundary; the continuous files contain every sent frame exactly once, in order, pixel-exact; the motion files equal the reference model in which each 'clear' ends the recording in progress and makes the next frame first-of-epoch; every marker is recognised. Non-trivial: at least one 'clear' and a segmentation with pieces shorter than the 5-byte marker.",
+		"generated: a camera header followed by frames and 5-byte 'clear' markers (at the start, at the end, repeated back to back, between frames), cut into segments of generated sizes (1 byte .. larger than a frame, cuts inside the marker, inside the first 5 bytes of a frame and inside header lines) and written to the real handleConn over a pipe; continuous recorder on, padded so that every frame sits in a finished file. Oracle: handleConn ends with a clean EOF at a frame boundary; the continuous files contain every sent frame exactly once, in order, pixel-exact; the motion files equal the reference model in which each 'clear' ends the recording in progress and makes the next frame first-of-epoch; every marker is recognised. For a Boson with edge-pixels 1 half of the cases carry frames whose first bytes resemble the marker ('cleaR', 'CLEAR', 'clear' from the second byte: must be delivered as frames; the marker's five bytes themselves: known finding D19, exempted only if the same case passes with 'cleaR'). Non-trivial: at least one 'clear' and a segmentation with pieces shorter than the 5-byte marker.",
 		vfGenC14Sock, vfRunC14Sock)
 }
 
